@@ -3,7 +3,7 @@
 import operator
 import numpy as np
 import astropy.units as u
-from astropy.time import Time
+from astropy.time import Time, TimeDelta
 import pulsarbat as pb
 import functools
 import dask.array as da
@@ -206,6 +206,9 @@ def snippet(z, /, t, n):
         tol = (2 * np.finfo(float).eps * u.day * z.sample_rate).to_value(u.one)
     else:
         tol = 0
+
+    if isinstance(t, TimeDelta):
+        t = t.to(u.s)  # a duration, e.g. the difference of two Times
 
     if isinstance(t, u.Quantity):
         t = (t * z.sample_rate).to_value(u.one)
